@@ -253,6 +253,17 @@ func ruleC13a(c *Ctx) {
 					}
 				}
 			}
+			// an object that is parked in memory others read (the request body) must not be released by a helper:
+			// the deferred release fires when this function returns, while its caller still consumes the object
+			if esc := escapesToHeap(s.Call); esc != nil {
+				entry := false
+				if o := s.Fn.Object(); o != nil && o.Exported() && s.Fn.Parent() == nil {
+					entry = true
+				}
+				c.check(entry, name, construct+" is released by the function that owns the whole operation", p.ipos(esc),
+					"the acquired object is stored into longer-lived memory, and the deferring function is an API entry point: its return ends the operation",
+					"the acquired object is stored into memory that outlives this function ("+esc.String()+") but the deferred release fires when this unexported helper returns: its caller goes on using a released object, which the provider may already have handed to another request")
+			}
 			c.check(okAdj, name, construct+" local owner", p.ipos(s.Call),
 				"defer Release"+s.Kind+"(x) is registered directly after the acquire (runs once on every exit, including panic); no other release of x",
 				"the deferred release is not registered directly after the acquire: a return or panic in between loses the object")
@@ -659,4 +670,37 @@ func ruleC13d(c *Ctx) {
 				"the pool's constructor returns a fresh object per call", "the pool's New does not provably allocate a fresh object per call: two Gets may share one compressor")
 		})
 	}
+}
+
+// escapesToHeap returns the store that parks v (through interface conversions) in non-local memory, if any.
+func escapesToHeap(v ssa.Value) ssa.Instruction {
+	var found ssa.Instruction
+	seen := map[ssa.Value]bool{}
+	var walk func(x ssa.Value)
+	walk = func(x ssa.Value) {
+		if seen[x] || found != nil {
+			return
+		}
+		seen[x] = true
+		for _, r := range referrers(x) {
+			switch y := r.(type) {
+			case *ssa.MakeInterface:
+				walk(y)
+			case *ssa.ChangeInterface:
+				walk(y)
+			case *ssa.Phi:
+				walk(y)
+			case *ssa.Store:
+				if y.Val == x {
+					if _, isAlloc := y.Addr.(*ssa.Alloc); !isAlloc {
+						found = y
+					}
+				}
+			case *ssa.Return:
+				found = y
+			}
+		}
+	}
+	walk(v)
+	return found
 }
